@@ -46,6 +46,11 @@ def _nhwc_programs() -> dict[str, dict[str, Any]]:
     add("symbolic_batch", lambda x, y: x * 2 + y, [("B", 4, 4, 3), ("B", 4, 4, 3)])
     add("symbolic_hw_pool_by_shape", lambda x: x - jnp.sum(x, axis=(1, 2), keepdims=True) / (x.shape[1] * x.shape[2]), [("B", "H", "W", 3)])
     add("symbolic_hw_tokens", lambda x: lax.reshape(x, (x.shape[0], x.shape[1] * x.shape[2], 3)).sum(axis=1)[:, None, None, :] + x, [("B", "H", "W", 3)])
+    add("add_chain_intermediate_returned", lambda x, y, z: (x + y, (x + y) + z), [S, S, S])
+    add("add_chain_root_first", lambda x, y, z: ((x + y) + z, x + y), [S, S, S])
+    add("add_chain_three_middle_returned", lambda x, y, z: (lambda a: (lambda b: (b + x, b, a))(a + z))(x + y), [S, S, S])
+    add("add_tree_both_leaves_returned", lambda x, y, z: (lambda a, b: (a + b, a, b))(x + y, y + z), [S, S, S])
+    add("relu_chain_intermediate_returned", lambda x: (lambda a: (jnp.tanh(a), a))(jax.nn.relu(x)), [S])
     add("two_pooled_descriptors", lambda x: (jnp.mean(x, axis=(1, 2), keepdims=True), jnp.mean(x, axis=3, keepdims=True)), [S])
     add("row_and_column_profiles", lambda x: (jnp.mean(x, axis=1, keepdims=True), jnp.mean(x, axis=2, keepdims=True), jnp.max(x, axis=(1, 2), keepdims=True)), [S])
     add("two_inputs_two_pools", lambda x, y: (jnp.mean(x, axis=(1, 2), keepdims=True) + 0.0, jnp.sum(y, axis=1, keepdims=True)), [S, S])
